@@ -32,8 +32,13 @@ def raw_name(draw, max_len=6):
     return first + rest
 
 
+# names that mean something to Python, NumPy or SymPy when text is (wrongly) re-interpreted
+_RISKY_NAMES = ["j", "J", "inf", "nan", "Infinity", "e", "E", "I", "pi2", "None", "lambda", "oo", "zoo", "S", "N", "p0_offset", "p12b", "p1a",
+                "array2", "intx", "q", "qa", "Measur", "x_0_0", "a_0_1"]
+
+
 def name_strategy(pool=_NAME_POOL):
-    return st.one_of(st.sampled_from(pool), raw_name()).filter(_is_name)
+    return st.one_of(st.sampled_from(pool), st.sampled_from(pool), st.sampled_from(_RISKY_NAMES), raw_name()).filter(_is_name)
 
 
 def ident(for_param=False):
@@ -134,7 +139,8 @@ PI = A.Num("pi", "pi")
 _STR_ALPHABET_ASCII = st.characters(min_codepoint=32, max_codepoint=126, exclude_characters='"')
 _STR_ALPHABET_ANY = st.one_of(
     _STR_ALPHABET_ASCII,
-    st.sampled_from(["\t", "é", "λ", "中", " ", "\U0001F600", "\\", "'", "#", "{", "}"]),
+    st.sampled_from(["\t", "é", "λ", "中", " ", "\U0001F600", "\\", "'", "#", "{", "}",
+                     "\x0b", "\x0c", "\x1c", "\x1d", "\x1e", "\x85", "\u2028", "\u2029", "\xa0"]),
 )
 
 
